@@ -132,16 +132,18 @@ static void gen_operands(ByteSource& in, Limbs& u, Limbs& v, size_t un, size_t v
 
 static void case_mpn_mul(ByteSource& in, CaseInfo& ci) {
   size_t un, vn; gen_shape(in, un, vn); Limbs u, v; gen_operands(in, u, v, un, vn);
-  bool same_obj = (un == vn) && in.chance(40);
-  ci.d("mpn_mul un=%zu vn=%zu%s ", un, vn, same_obj ? " up==vp" : ""); DESC(ci, "u=" + show(u, 64) + " v=" + show(v, 64));
+  bool same_obj = (un == vn) && in.chance(40); if (same_obj) v = u;
+  // the same pointer for both sources with a shorter second length (v is then the low part of u): sources may overlap each other freely
+  bool same_ptr_prefix = !same_obj && vn < un && in.chance(24); if (same_ptr_prefix) { v.assign(u.begin(), u.begin() + vn); ci.label("mul:same_pointer_shorter_second_operand"); }
+  ci.d("mpn_mul un=%zu vn=%zu%s ", un, vn, same_obj ? " up==vp" : same_ptr_prefix ? " vp==up (prefix)" : ""); DESC(ci, "u=" + show(u, 64) + " v=" + show(v, 64));
   if (const char* r = regime_mul(un, vn)) { ci.label(r); if (!strcmp(r, "mul:fft")) ci.label(fft_depth_label(un, vn)); }
   else { ci.label(same_obj ? regime_sqr(un) : regime_mul_n(un)); if (same_obj) ci.label("mul:same_object"); }
   if (vn >= 2) ci.nontrivial = true;
   Guarded r(un + vn); Limbs u0 = u, v0 = v;
-  uint64_t hi = same_obj ? mpn_mul(r.p(), u.data(), un, u.data(), vn) : mpn_mul(r.p(), u.data(), un, v.data(), vn);
+  uint64_t hi = (same_obj || same_ptr_prefix) ? mpn_mul(r.p(), u.data(), un, u.data(), vn) : mpn_mul(r.p(), u.data(), un, v.data(), vn);
   REQUIRE(r.intact(), "mpn_mul(un=%zu,vn=%zu): wrote outside the %zu-limb destination", un, vn, un + vn);
   REQUIRE(u == u0 && (same_obj || v == v0), "mpn_mul(un=%zu,vn=%zu): a source operand was modified", un, vn);
-  check_product("mpn_mul", r.p(), u.data(), un, same_obj ? u.data() : v.data(), vn, ci);
+  check_product("mpn_mul", r.p(), u.data(), un, v.data(), vn, ci);
   REQUIRE(hi == r.p()[un + vn - 1], "mpn_mul(un=%zu,vn=%zu): returned high limb 0x%llx differs from the stored one", un, vn, (unsigned long long)hi);
 }
 static void case_mul_n_sqr(ByteSource& in, CaseInfo& ci) {
@@ -193,8 +195,9 @@ static void case_fft_direct(ByteSource& in, CaseInfo& ci) {
   Limbs u, v; gen_operands(in, u, v, n1, n2);
   ci.label("fft_direct"); ci.label(fft_depth_label(n1, n2)); ci.nontrivial = true;
   ci.d("mpn_mul_fft_main n1=%zu n2=%zu ", n1, n2); DESC(ci, "u=" + show(u, 64) + " v=" + show(v, 64));
+  bool same_ptr = n2 <= n1 && in.chance(30); if (same_ptr) { v.assign(u.begin(), u.begin() + n2); ci.label("mul:same_pointer_shorter_second_operand"); }
   Guarded r(n1 + n2); Limbs u0 = u, v0 = v;
-  mpn_mul_fft_main(r.p(), u.data(), n1, v.data(), n2);
+  mpn_mul_fft_main(r.p(), u.data(), n1, same_ptr ? u.data() : v.data(), n2);
   REQUIRE(r.intact(), "mpn_mul_fft_main(%zu,%zu): wrote outside the destination", n1, n2);
   REQUIRE(u == u0 && v == v0, "mpn_mul_fft_main(%zu,%zu): a source operand was modified", n1, n2);
   check_product("mpn_mul_fft_main", r.p(), u.data(), n1, v.data(), n2, ci);
@@ -283,6 +286,6 @@ static void check(ByteSource& in, CaseInfo& ci) {
 }
 namespace eng {
 PropDef g_prop = {"C01",
-  "Cases: one call of mpn_mul (un>=vn>=1; (un,vn) region-targeted for every branch of the size dispatch: tiny, thresholds +-2, un/vn ratios at the Toom dispatch boundaries, un+vn around 2*threshold, very unbalanced incl. chunked basecase un>500, log-uniform to the scale cap), mpn_mul_n / mpn_sqr (n around every threshold), mpn_mul_1/addmul_1/submul_1 (incl. in-place and rp=s1p-k overlap for mul_1), mpn_mul_fft_main called directly (n2>=n1/7), mpz_mul (signs, zero, all alias patterns incl. same object), mpz_mul_ui/si, mpz_addmul/submul(_ui) with accumulators equal/opposite/near the product. Limb styles uniform/runs/palette/all-ones/single-bit/low-zero, all-ones x all-ones, v a prefix of u, top piece of a 2/3/4/5/8-way split zero; a rare class (about 1 in 128 cases at scale >= 90, i.e. ~1 in 1300 overall) multiplies 66000..150000-limb (thorough: ..600000) operands in the MFA regime of the FFT with random, power-of-two, all-ones and sparse operands. Oracle: refint product limb by limb (un+vn <= 24000 limbs), above that fingerprints modulo four 61-bit primes, 2^64 and 2^64-1; guard limbs; sources unchanged. Non-trivial: vn >= 2 (mpn) / operands >= 2 limbs (mpz). Distinct = hash of all decoded choices.",
-  check, nullptr, {"mul:basecase", "mul:basecase_chunked", "mul:toom42", "mul:toom32", "mul:toom3_unbal", "mul:toom53", "mul:toom4", "mul:toom8h", "mul:fft", "mul:mul_n_plus_tail", "mul_n:fft", "sqr:fft", "sqr:toom8", "fft_direct", "aorsmul:sign_change", "mul:same_object", "huge_mfa"}};
+  "Cases: one call of mpn_mul (un>=vn>=1; (un,vn) region-targeted for every branch of the size dispatch: tiny, thresholds +-2, un/vn ratios at the Toom dispatch boundaries, un+vn around 2*threshold, very unbalanced incl. chunked basecase un>500, log-uniform to the scale cap), mpn_mul_n / mpn_sqr (n around every threshold), mpn_mul_1/addmul_1/submul_1 (incl. in-place and rp=s1p-k overlap for mul_1), mpn_mul_fft_main called directly (n2>=n1/7), mpz_mul (signs, zero, all alias patterns incl. same object), mpz_mul_ui/si, mpz_addmul/submul(_ui) with accumulators equal/opposite/near the product. Limb styles uniform/runs/palette/all-ones/single-bit/low-zero, all-ones x all-ones, v a prefix of u (also as the same pointer with a shorter length), top piece of a 2/3/4/5/8-way split zero; a rare class (about 1 in 128 cases at scale >= 90, i.e. ~1 in 1300 overall) multiplies 66000..150000-limb (thorough: ..600000) operands in the MFA regime of the FFT with random, power-of-two, all-ones and sparse operands. Oracle: refint product limb by limb (un+vn <= 24000 limbs), above that fingerprints modulo four 61-bit primes, 2^64 and 2^64-1; guard limbs; sources unchanged. Non-trivial: vn >= 2 (mpn) / operands >= 2 limbs (mpz). Distinct = hash of all decoded choices.",
+  check, nullptr, {"mul:basecase", "mul:basecase_chunked", "mul:toom42", "mul:toom32", "mul:toom3_unbal", "mul:toom53", "mul:toom4", "mul:toom8h", "mul:fft", "mul:mul_n_plus_tail", "mul_n:fft", "sqr:fft", "sqr:toom8", "fft_direct", "aorsmul:sign_change", "mul:same_object", "mul:same_pointer_shorter_second_operand", "huge_mfa"}};
 }
